@@ -44,6 +44,17 @@ CHECKS = {
              "real query); counterexamples are replayed on a real database built from the graph.",
         technique="CrossHair symbolic execution (z3) over symbolic adjacency matrices vs. graph-theoretic oracle",
         ref='4 C13'),
+    'C15': dict(
+        text="Bounded symbolic model checking of the real wn.ic.compute / synset_probability / load: every "
+             "labelled digraph on 3 nodes (cycles, convergent paths in any listing order), symbolic word "
+             "membership, a/s mixtures; weights compared with the closed form of docs/api/wn.ic.rst "
+             "(counted once per word synset), monotonicity and probability bounds stated linearly.",
+        note=NOTE_COMMON + "On the exhaustive graphs counts/smoothing range over {0,3,5}/{0,0.25} "
+             "(compute is linear in them); symbolic integer counts are explored on a fixed diamond as bug "
+             "hunting. Reals stand in for floats; math.log is not executed (IC claims follow from the "
+             "probability claims by monotonicity of log).",
+        technique="CrossHair symbolic execution (z3) over symbolic adjacency matrices vs. closed-form oracle",
+        ref='4 C15'),
     'C18': dict(
         text="Bounded symbolic model checking of the real wn.validate checks: lexicons whose ids, "
              "references, relation targets/types, ILIs, parts of speech and texts are symbolic strings; "
